@@ -640,6 +640,21 @@ Definition custom_validate (o : orc) (q : quirks) (kind : string) (g : jvalue) :
   else if String.eqb kind "TopicMapper" then (if q_topic_index q then true else topic_index_ok g)
   else true.
 
+(** the Validate() methods modelled above (Go type names); [kind_validators] of the GENERATED file lists
+    what traverseGo can reach from each kind's spec type *)
+Definition modelled_validators : list string :=
+  ["ratelimiter.Spec"; "urlrule.StringMatch"; "httpheader.ValueValidator"; "validator.Spec";
+   "proxy.MethodAndURLMatcher"; "proxy.RequestMatcherSpec"; "proxy.ServerPoolSpec"; "proxy.Spec"; "proxy.StringMatcher";
+   "builder.RequestBuilderSpec"; "builder.ResponseBuilderSpec"; "builder.Spec";
+   "resilience.CircuitBreakerPolicy"; "resilience.RetryPolicy"; "topicmapper.Spec"; "pipeline.Spec";
+   "requestadaptor.Spec"; "responseadaptor.Spec"].
+
+Definition validators_covered (ks : list string) : bool :=
+  forallb (fun k => match alookup k kind_validators with
+                    | Some vs => forallb (fun v => existsb (String.eqb v) modelled_validators) vs
+                    | None => false
+                    end) ks.
+
 (** ** whole validation *)
 
 Definition kind_info_of (cat kind : string) : option kind_info :=
